@@ -12,7 +12,8 @@ BUDGET = {"quick": 1200, "thorough": 30000}
 EXHAUSTIVE = True
 RULE = ("EXHAUSTIVE: every else-chain of 1..3 links (thorough: ..4) over {if, unless, with, each} x with/without final else x "
         "every assignment of condition values from a set with each truthiness class (false, null, missing, 0, '', [], {}, "
-        "true, 1, 'x', [0], {k:0}, -0.0, 5e-324, 1.5); plus random nested chains (depth ≤ 4) in every scope kind from the "
+        "true, 1, 'x', [0], {k:0}, -0.0, 5e-324, 1.5); every link kind x truthiness class under condition keys that begin like a literal and "
+        "continue with another symbol character (true-color, null:obj, 2-factor, 1a ...), at the block head and in an else link; plus random nested chains (depth ≤ 4) in every scope kind from the "
         "AST generator; each branch writes a distinct marker; oracle = reference renderer (first link whose condition holds, "
         "else the final else, else nothing); includeZero variants; non-trivial = some branch rendered; distinct by "
         "(chain shape, values)")
@@ -77,6 +78,34 @@ def generate(rng, n, tier="quick"):
             case = session({}, [("main", src)], {"api": "render", "name": "main"}, data)
             case["id"] = "%s-z-%s-%s" % (ID, vn, neg)
             out.append((case, {"mode": "incz", "oracle": list(ref_outcome({"main": ast}, "main", data)), "shape": [vn, neg]}))
+    # condition keys that BEGIN like a literal (true / false / null / a number) and go on with another symbol character: the
+    # whole word is a path, the condition is the value stored under it
+    LOOKALIKE = ["true-color", "false-alarm", "null-count", "null:obj", "2-factor", "true\u00e9", "null$", "false_x", "nullable", "1a", "-1x",
+                 "1E5x", "true:", "0-0", "falsey", "null-", "trueish$"]
+    vals_l = [v for v in VALUES if v[0] in ("false", "null", "missing", "zero", "empty", "true", "str", "arr", "eobj")]
+    for K in LOOKALIKE:
+        for vn, vv in vals_l:
+            for kind in ("if", "unless", "with", "each"):
+                for has_else in (False, True):
+                    for pos in (0, 1):
+                        data = {"f": False}
+                        if vv is not ref.MISSING:
+                            data[K] = vv
+                        arg = {"a": "path", "ups": 0, "root": False, "segs": [K]}
+                        els = [{"t": "text", "s": "<E>"}] if has_else else None
+                        etxt = "{{else}}<E>" if has_else else ""
+                        if pos == 0:
+                            links = [(kind, arg, [{"t": "text", "s": "<0>"}], None)]
+                            src = "[{{#%s %s}}<0>%s{{/%s}}]" % (kind, K, etxt, kind)
+                        else:
+                            links = [("if", {"a": "path", "ups": 0, "root": False, "segs": ["f"]}, [{"t": "text", "s": "<0>"}], None),
+                                     (kind, arg, [{"t": "text", "s": "<1>"}], None)]
+                            src = "[{{#if f}}<0>{{else %s %s}}<1>%s{{/if}}]" % (kind, K, etxt)
+                        ast = [{"t": "text", "s": "["}, {"t": "chain", "links": links, "else": els}, {"t": "text", "s": "]"}]
+                        case = session({}, [("main", src)], {"api": "render", "name": "main"}, data)
+                        case["id"] = "%s-k%06d" % (ID, i)
+                        i += 1
+                        out.append((case, {"mode": "lookalike", "oracle": list(ref_outcome({"main": ast}, "main", data)), "shape": [K, vn, kind, has_else, pos]}))
     # random nested part
     j = 0
     target = len(out) + n
